@@ -2,7 +2,7 @@
     Theorem statements only; the model is Model/Tok.v, the documented syntax is Spec/C09.v (part 1). *)
 From Coq Require Import NArith List Bool.
 From Exactly Require Import Model.Tok Spec.C09 Proofs.TokLex Proofs.TokStream Proofs.TokTotal Proofs.TokSplit
-     Proofs.TokHere Proofs.TokParse Gen.C09_tables.
+     Proofs.TokHere Proofs.TokParse Proofs.TokRich Proofs.TokList Gen.C09_tables.
 Import ListNotations.
 
 (** Token boundaries.  A source written as  lead t1 s1 t2 s2 ... tn sn  — every ti a non-empty
@@ -141,6 +141,54 @@ Theorem C09_unterminated_heredoc_is_error :
 Proof. exact heredoc_unterminated. Qed.
 Print Assumptions C09_unterminated_heredoc_is_error.
 
+(** RICH-STRING, first form: when the first token neither looks like a here-document start nor
+    is the unquoted marker :>, the rich-string parser treats it exactly like a STRING
+    (C09_substitution applies to its fragments and value). *)
+Theorem C09_rich_string_plain :
+  forall (alnum : N -> bool) (lead : text) (t : stoken) (rest : text),
+    forallb is_sep lead = true -> wf_tok t = true -> rest_ok rest -> is_reserved_word t = false ->
+    plain_for_rich t = true ->
+    exists ts ts',
+      ts_init (lead ++ render_tok t ++ rest) = Ok ts /\
+      rich_string_parse alnum ts = Ok (fragments_of alnum t, ts') /\
+      ts_position ts' = (length lead + length (render_tok t) + adv rest)%nat.
+Proof. exact rich_string_token. Qed.
+Print Assumptions C09_rich_string_plain.
+
+(** RICH-STRING, second form  lead :> gap TEXT [NL anything]  (TEXT any characters but new-line,
+    including quotes, #, symbol references, white space of every kind): the string is TEXT with
+    white space at both ends removed, decomposed by split; the parser stops at the end of the
+    line, so following lines are not touched. *)
+Theorem C09_text_until_eol :
+  forall (alnum : N -> bool) (lead gap txt : text) (after : option text),
+    forallb is_sep lead = true -> wf_rich (REol gap txt after) = true ->
+    exists ts ts',
+      ts_init (lead ++ render_rich (REol gap txt after)) = Ok ts /\
+      rich_string_parse alnum ts = Ok (split alnum (strip_py txt), ts') /\
+      ts_position ts' = length (lead ++ [58; 62] ++ gap ++ txt)%N.
+Proof. exact text_until_eol. Qed.
+Print Assumptions C09_text_until_eol.
+
+(** LIST elements.  lead item ... item [NL anything], an item being a string token followed by
+    blanks, or the continuation  backslash blanks NL blanks : the elements are exactly the written
+    tokens in order ([elements]: each token with the fragments of C09_substitution; a naked token
+    that is exactly one symbol reference is a symbol element), a lone backslash that is not last
+    on its line is an element, one that is last continues the list on the next line; the parser
+    stops at the end of the last line.  [wfl] (Proofs/TokList.v): every token is well-formed, is
+    not a reserved word, separators between things on a line are non-empty.
+    PARTIAL: [wfl] also demands that no token contains a new-line inside quotes, and the theorem
+    does not cover a list stopped by an unquoted ")" — both are covered by the correspondence
+    check only. *)
+Theorem C09_list_elements_partial :
+  forall (alnum : N -> bool) (lead : text) (its : list litem) (after : option text),
+    forallb is_sep_no_nl lead = true -> wfl its = true ->
+    exists ts ts',
+      ts_init (lead ++ render_slist (SList its None after)) = Ok ts /\
+      list_parse alnum ts = Ok (elements alnum its, ts') /\
+      ts_position ts' = length (lead ++ concat (map render_litem its)).
+Proof. exact list_elements. Qed.
+Print Assumptions C09_list_elements_partial.
+
 (** Non-vacuity: a"b c"d e  is two tokens;  a#b  is one token (the repaired defect FIX-C09-1). *)
 Example C09_example_tokens :
   map obs_core (fst (ts_run [97; 34; 98; 32; 99; 34; 100; 32; 101]%N)) =
@@ -162,3 +210,28 @@ Proof.
   exists [97; 32; 160]%N. vm_compute. repeat split; eexists; try eexists; split; reflexivity.
 Qed.
 Print Assumptions C09_prefix_exotic_space_word_refuted.
+
+(** Non-vacuity of the parsers: a here-document whose lines look like a marker with a trailing
+    blank, a section header and a comment; a list with a lone backslash element and a continuation. *)
+Example C09_example_heredoc :
+  let src := [60;60;69;10; 69;32;10; 91;97;93;10; 35;32;120;10; 69;10; 122]%N in
+  match ts_init src with
+  | Ok ts => match rich_string_parse ascii_alnum ts with
+             | Ok (frs, ts') => frs = [FConst [69;32;10; 91;97;93;10; 35;32;120;10]%N] /\ ts_position ts' = 16%nat
+             | Raise _ => False
+             end
+  | Raise _ => False
+  end.
+Proof. vm_compute. split; reflexivity. Qed.
+
+Example C09_example_list :
+  let src := [97;32;92;32;98;32;92;10;32;39;99;32;100;39;10;122]%N in   (* a \ b \ NL 'c d' NL z *)
+  match ts_init src with
+  | Ok ts => match list_parse ascii_alnum ts with
+             | Ok (els, ts') => els = [EStr [FConst [97]]; EStr [FConst [92]]; EStr [FConst [98]]; EStr [FConst [99;32;100]]]%N
+                                /\ ts_position ts' = 14%nat
+             | Raise _ => False
+             end
+  | Raise _ => False
+  end.
+Proof. vm_compute. split; reflexivity. Qed.
